@@ -19,10 +19,12 @@ package main
 // responses of that run are kept (non-interference comparison).
 
 import (
+	"bytes"
 	"context"
 	"fmt"
 	"math/rand"
 	"net/http"
+	"net/http/httptest"
 	"os"
 	"sort"
 	"strings"
@@ -49,11 +51,12 @@ type c37Call struct {
 	Pre       string   `json:"pre,omitempty"` // "" | auth | ctype   (HTTP only: refused before the method is looked at)
 	PV        string   `json:"pv"`            // ok | absent | bad  (vgi_rpc.protocol_version on the request)
 	BadParams bool     `json:"bad_params,omitempty"`
-	Sticky    bool     `json:"sticky,omitempty"` // HTTP: undecodable VGI-Session on the first request
-	Init      string   `json:"init"`             // ok | big | err | panic | nil
-	NoGob     bool     `json:"nogob,omitempty"`  // stream state that cannot be serialised into a token
-	Turns     []string `json:"turns,omitempty"`  // emit | big | finish | err | panic | noemit | emit2 | badschema
-	Inputs    []string `json:"inputs,omitempty"` // tick | cancel | badtoken | sticky
+	Sticky    bool     `json:"sticky,omitempty"`    // HTTP: undecodable VGI-Session on the first request
+	Init      string   `json:"init"`                // ok | big | err | panic | nil
+	NoGob     bool     `json:"nogob,omitempty"`     // stream state that cannot be serialised into a token
+	Turns     []string `json:"turns,omitempty"`     // emit | big | finish | err | panic | noemit | emit2 | badschema
+	Inputs    []string `json:"inputs,omitempty"`    // tick | cancel | badtoken | sticky
+	CancelAt  int      `json:"cancel_at,omitempty"` // user code cancels the context its dispatch runs under: 0 never | 1 in the unary / init handler | k+2 inside the Produce / Exchange call at stream position k
 }
 
 type c37Op struct {
@@ -138,7 +141,9 @@ func (h *c37Hook) OnDispatchStart(ctx context.Context, info vgirpc.DispatchInfo)
 		case "nilnil":
 			rctx, rtok, ev.TV = nil, nil, 0
 		case "derived":
-			rctx, ev.CV = context.WithValue(ctx, c37CtxKey{}, id+1), id+1
+			// a context of the hook's own: carries a value and its own cancel function
+			child, childCancel := context.WithCancel(ctx)
+			rctx, ev.CV = context.WithValue(context.WithValue(child, c37CtxKey{}, id+1), c37CancelKey{}, childCancel), id+1
 		}
 	}
 	h.log = append(h.log, ev)
@@ -150,6 +155,52 @@ func (h *c37Hook) OnDispatchStart(ctx context.Context, info vgirpc.DispatchInfo)
 }
 
 type c37CtxKey struct{}
+type c37CancelKey struct{}
+
+// c37Cancel cancels the context user code runs under: the innermost cancel
+// function it carries (the hook-returned context's, else the serve / request one).
+func c37Cancel(ctx context.Context) {
+	if ctx == nil {
+		return
+	}
+	if c, ok := ctx.Value(c37CancelKey{}).(context.CancelFunc); ok {
+		c()
+	}
+}
+
+// c37RunPipe is RunPipe under a cancellable serve context.
+func c37RunPipe(s *vgirpc.Server, input []byte) (out []byte, escaped any) {
+	ctx, cancel := context.WithCancel(context.Background())
+	defer cancel()
+	ctx = context.WithValue(ctx, c37CancelKey{}, cancel)
+	var buf bytes.Buffer
+	func() {
+		defer func() { escaped = recover() }()
+		s.ServeWithContext(ctx, bytes.NewReader(input), &buf)
+	}()
+	return buf.Bytes(), escaped
+}
+
+// c37DoHTTP is DoHTTP under a cancellable request context.
+func c37DoHTTP(h http.Handler, method, path string, body []byte, hdr map[string]string) HTTPResp {
+	ctx, cancel := context.WithCancel(context.Background())
+	defer cancel()
+	ctx = context.WithValue(ctx, c37CancelKey{}, cancel)
+	req := httptest.NewRequest(method, path, bytes.NewReader(body)).WithContext(ctx)
+	if body != nil && req.Header.Get("Content-Type") == "" {
+		req.Header.Set("Content-Type", "application/vnd.apache.arrow.stream")
+	}
+	for k, v := range hdr {
+		req.Header.Set(k, v)
+	}
+	rec := httptest.NewRecorder()
+	var esc any
+	func() {
+		defer func() { esc = recover() }()
+		h.ServeHTTP(rec, req)
+	}()
+	return HTTPResp{Status: rec.Code, Header: rec.Result().Header, Body: rec.Body.Bytes(), Panic: esc}
+}
 
 // c37CtxVal reads the value a derived context carries (0: none).
 func c37CtxVal(ctx context.Context) int {
@@ -273,6 +324,9 @@ func (st *C37State) turn(ctx context.Context, prod bool, out *vgirpc.OutputColle
 	c37Mu.Unlock()
 	if r != nil {
 		r.saw(st.K, ctx)
+		if st.K < len(r.calls) && r.calls[st.K].CancelAt == st.Pos+2 {
+			c37Cancel(ctx)
+		}
 	}
 	act := "emit"
 	if prod {
@@ -323,6 +377,9 @@ func newC37Server(r *c37Hist, hook vgirpc.DispatchHook) *vgirpc.Server {
 	vgirpc.Unary(s, "unary", func(ctx context.Context, cc *vgirpc.CallContext, p PInt) (int64, error) {
 		k := int(p.X)
 		r.saw(k, ctx)
+		if k >= 0 && k < len(r.calls) && r.calls[k].CancelAt == 1 {
+			c37Cancel(ctx)
+		}
 		r.gate(k)
 		if k >= 0 && k < len(r.calls) {
 			if r.calls[k].Init == "big" {
@@ -338,6 +395,9 @@ func newC37Server(r *c37Hist, hook vgirpc.DispatchHook) *vgirpc.Server {
 		return func(ctx context.Context, cc *vgirpc.CallContext, p PInt) (*vgirpc.StreamResult, error) {
 			k := int(p.X)
 			r.saw(k, ctx)
+			if k >= 0 && k < len(r.calls) && r.calls[k].CancelAt == 1 {
+				c37Cancel(ctx)
+			}
 			r.gate(k)
 			init, nogob := "ok", false
 			if k >= 0 && k < len(r.calls) {
@@ -456,7 +516,7 @@ func (r *c37Hist) runCall(k int, pipeSrv *vgirpc.Server, httpSrv *vgirpc.HttpSer
 			}
 			in = append(in, InputBytes(schema, items)...)
 		}
-		out, esc := RunPipe(pipeSrv, in)
+		out, esc := c37RunPipe(pipeSrv, in)
 		first(&c37Resp{Panic: esc != nil, Streams: c37Frames(out)})
 		return
 	}
@@ -474,7 +534,7 @@ func (r *c37Hist) runCall(k int, pipeSrv *vgirpc.Server, httpSrv *vgirpc.HttpSer
 	if stream {
 		path += "/init"
 	}
-	resp := DoHTTP(httpSrv, "POST", path, req, hdr)
+	resp := c37DoHTTP(httpSrv, "POST", path, req, hdr)
 	first(c37HTTPResp(resp))
 	if !stream {
 		return
@@ -529,7 +589,7 @@ func (r *c37Hist) runCall(k int, pipeSrv *vgirpc.Server, httpSrv *vgirpc.HttpSer
 		if it == "sticky" {
 			h2["VGI-Session"] = "not-a-session-token"
 		}
-		resp = DoHTTP(httpSrv, "POST", "/"+method+"/exchange", body, h2)
+		resp = c37DoHTTP(httpSrv, "POST", "/"+method+"/exchange", body, h2)
 		sub(j, c37HTTPResp(resp))
 		if it == "cancel" {
 			return
@@ -754,6 +814,11 @@ func c37Run(in c37In) CaseOut {
 		}
 	}
 	for _, c := range in.Calls {
+		if c.CancelAt == 1 {
+			tags["ctx-cancelled-in-handler"] = true
+		} else if c.CancelAt > 1 && (c.Kind == "prod" || c.Kind == "exch") {
+			tags["ctx-cancelled-at-turn"] = true
+		}
 		t := "pipe-"
 		if c.HTTP {
 			t = "http-"
@@ -832,8 +897,14 @@ func c37Run(in c37In) CaseOut {
 		turn := map[string]string{"emit": "C37.TEmit", "big": "C37.TBig", "finish": "C37.TFinish", "err": "C37.TErr", "panic": "C37.TPanic",
 			"noemit": "C37.TNoEmit", "emit2": "C37.TEmit2", "badschema": "C37.TBadSchema"}
 		item := map[string]string{"tick": "C37.ITick", "cancel": "C37.ICancel", "badtoken": "C37.IBadToken", "sticky": "C37.ISticky"}
+		cpt := "C37.CNone"
+		if c.CancelAt == 1 {
+			cpt = "C37.CHandler"
+		} else if c.CancelAt >= 2 {
+			cpt = App("C37.CTurn", Nat(c.CancelAt-2))
+		}
 		return App("C37.Build_call", Bool(c.HTTP), kind, pre, pv, Bool(c.BadParams), Bool(c.Sticky), ini, Bool(c.NoGob),
-			ListOf(c.Turns, func(s string) string { return turn[s] }), ListOf(c.Inputs, func(s string) string { return item[s] }))
+			ListOf(c.Turns, func(s string) string { return turn[s] }), ListOf(c.Inputs, func(s string) string { return item[s] }), cpt)
 	}
 	coqIn := App("C37.Build_input",
 		ListOf(in.Hooks, func(b c37Beh) string { return App("C37.Build_hbeh", Bool(b.SP), Bool(b.EP), c37Shape[b.Ret]) }),
@@ -934,6 +1005,9 @@ func c37GenCall(r *rand.Rand, findings bool) c37Call {
 		}
 		c.NoGob = (findings || !c.HTTP) && r.Intn(6) == 0
 	}
+	if r.Intn(4) == 0 {
+		c.CancelAt = 1 + r.Intn(6)
+	}
 	return c
 }
 
@@ -973,7 +1047,41 @@ func c37Gen(r *rand.Rand, n int, tier string) []c37In {
 	behs := [][]c37Beh{nil, {{SP: true}, {EP: true}, {SP: true, EP: true}, {}, {EP: true}, {SP: true}, {EP: true}, {}, {SP: true}, {EP: true}},
 		{{Ret: "nilctx"}, {Ret: "derived", EP: true}, {Ret: "niltok"}, {SP: true, Ret: "nilctx"}, {Ret: "nilnil", EP: true}, {Ret: "derived"}, {Ret: "nilctx", EP: true},
 			{Ret: "niltok", EP: true}, {Ret: "nilnil"}, {}, {Ret: "derived"}, {Ret: "nilctx"}, {Ret: "niltok"}, {Ret: "derived", EP: true}, {Ret: "nilnil"}, {Ret: "nilctx"}}}
-	// boundary, FIRST: every shape of what OnDispatchStart returns — (nil ctx, token), (ctx, nil token),
+	// boundary, FIRST: context cancellation as a scripted event — in the handler (before the first
+	// iteration / during a unary), inside turn 0, 1, 2 and beyond the script; at a turn that also
+	// logs big / fails; producer and exchange, pipe and HTTP; under a calm hook (the serve / request
+	// context is cancelled), a hook returning its own derived context (that one is cancelled) and a mixed script
+	{
+		var derived []c37Beh
+		for i := 0; i < 40; i++ {
+			derived = append(derived, c37Beh{Ret: "derived", EP: i%7 == 3})
+		}
+		for _, hs := range [][]c37Beh{nil, derived, behs[2]} {
+			for _, http := range []bool{false, true} {
+				var calls []c37Call
+				for _, kind := range []string{"prod", "exch"} {
+					for _, at := range []int{1, 2, 3, 4, 7} {
+						calls = append(calls, ok(c37Call{HTTP: http, Kind: kind, Turns: []string{"emit", "emit", "emit", "emit"},
+							Inputs: []string{"tick", "tick", "tick", "tick", "tick"}, CancelAt: at}))
+					}
+					calls = append(calls,
+						ok(c37Call{HTTP: http, Kind: kind, Turns: []string{"emit", "big", "emit"}, Inputs: []string{"tick", "tick", "tick"}, CancelAt: 3}),
+						ok(c37Call{HTTP: http, Kind: kind, Turns: []string{"emit", "err"}, Inputs: []string{"tick", "tick", "tick"}, CancelAt: 3}),
+						ok(c37Call{HTTP: http, Kind: kind, Init: "big", Turns: []string{"emit", "emit"}, Inputs: []string{"tick", "tick"}, CancelAt: 1}))
+				}
+				calls = append(calls, ok(c37Call{HTTP: http, Kind: "unary", CancelAt: 1}), ok(c37Call{HTTP: http, Kind: "unary", Init: "err", CancelAt: 1}))
+				out = append(out, c37In{Hooks: hs, Calls: calls, Sched: c37SeqSched(len(calls))})
+			}
+		}
+		calls := []c37Call{
+			ok(c37Call{Kind: "prod", Turns: []string{"emit", "emit", "emit"}, Inputs: []string{"tick", "tick", "tick", "tick"}, CancelAt: 3}),
+			ok(c37Call{HTTP: true, Kind: "prod", Turns: []string{"emit", "emit", "emit"}, Inputs: []string{"tick", "tick"}, CancelAt: 2}),
+			ok(c37Call{Kind: "exch", Turns: []string{"emit", "emit"}, Inputs: []string{"tick", "tick", "tick"}, CancelAt: 2}),
+			ok(c37Call{Kind: "unary", CancelAt: 1}),
+		}
+		out = append(out, c37In{Hooks: derived, Calls: calls, Sched: []c37Op{{K: 0}, {K: 1}, {K: 2}, {Fin: true, K: 1}, {K: 3}, {Fin: true, K: 0}, {Fin: true, K: 3}, {Fin: true, K: 2}}})
+	}
+	// boundary: every shape of what OnDispatchStart returns — (nil ctx, token), (ctx, nil token),
 	// (nil, nil), (derived ctx, token) — on every path: pipe unary (suspended and run-through), pipe
 	// producer / exchange, HTTP unary, HTTP producer init + continuation, HTTP exchange init + continuations
 	{
@@ -1094,6 +1202,6 @@ func c37Gen(r *rand.Rand, n int, tier string) []c37In {
 }
 
 func init() {
-	Register("C37", "boundary histories first (every shape of what OnDispatchStart returns on every path — pipe unary suspended / run-through, pipe producer / exchange, HTTP unary, producer init + continuation, exchange init + continuations — sequential and interleaved; then every call kind x transport x init outcome incl. bad parameters; every turn action at the first and a later turn with sticky / bad-token / cancel continuations; every refusal before dispatch incl. the protocol-version gate on both transports; a fixed interleaved schedule under 16 hook-behaviour masks; the recorded finding inputs), each under a calm and a panicking hook script, then random histories of 1-5 calls (unary / producer / exchange / unknown method, pipe / HTTP, protocol-version ok / absent / mismatching, authenticator / content-type refusal, bad parameters, bad sticky session, init ok / big log / error / panic / nil, un-serialisable state, 0-6 scripted turns, 0-5 client inputs incl. cancel / forged token / bad sticky continuation) under random interleaved Begin/Finish schedules forced with handler gates and random hook scripts (start and/or end panicking; a returning start hands back (ctx, token), (nil ctx, token), (ctx, nil token), (nil, nil) or (derived ctx carrying a value, token)); one schedule in five carries ill-formed ops; every history is replayed with a never-panicking hook for the non-interference comparison; non-trivial = at least one OnDispatchEnd observed; distinct = distinct input JSON",
+	Register("C37", "boundary histories first (context cancellation by user code — in the unary / init handler, inside turn 0 / 1 / 2 / beyond the script, at a turn that also logs big or fails — for producer and exchange on pipe and HTTP, cancelling the serve / request context under a calm hook and the hook's own derived context otherwise; every shape of what OnDispatchStart returns on every path — pipe unary suspended / run-through, pipe producer / exchange, HTTP unary, producer init + continuation, exchange init + continuations — sequential and interleaved; then every call kind x transport x init outcome incl. bad parameters; every turn action at the first and a later turn with sticky / bad-token / cancel continuations; every refusal before dispatch incl. the protocol-version gate on both transports; a fixed interleaved schedule under 16 hook-behaviour masks; the recorded finding inputs), each under a calm and a panicking hook script, then random histories of 1-5 calls (unary / producer / exchange / unknown method, pipe / HTTP, protocol-version ok / absent / mismatching, authenticator / content-type refusal, bad parameters, bad sticky session, init ok / big log / error / panic / nil, un-serialisable state, 0-6 scripted turns, 0-5 client inputs incl. cancel / forged token / bad sticky continuation, one call in four cancelling its context in the handler or at a turn) under random interleaved Begin/Finish schedules forced with handler gates and random hook scripts (start and/or end panicking; a returning start hands back (ctx, token), (nil ctx, token), (ctx, nil token), (nil, nil) or (derived ctx carrying a value, token)); one schedule in five carries ill-formed ops; every history is replayed with a never-panicking hook for the non-interference comparison; non-trivial = at least one OnDispatchEnd observed; distinct = distinct input JSON",
 		c37Gen, c37Run)
 }
